@@ -279,6 +279,27 @@ def func_literals(mod, qualname: str):
     return [v for _, _, v in out]
 
 
+def func_slices(mod, qualname: str):
+    """constant bounds of every `x[a:b]` subscript in a function body, in source order, flattened"""
+    try:
+        obj = mod
+        for part in qualname.split("."):
+            obj = getattr(obj, part)
+        import textwrap
+        tree = ast.parse(textwrap.dedent(inspect.getsource(obj)))
+    except Exception as e:  # noqa
+        problems.append(f"{mod.__name__}.{qualname}: cannot read source: {e}")
+        return []
+    out = []
+    for node in ast.walk(tree):
+        if isinstance(node, ast.Subscript) and isinstance(node.slice, ast.Slice):
+            lo, hi = node.slice.lower, node.slice.upper
+            if isinstance(lo, ast.Constant) and isinstance(hi, ast.Constant):
+                out.append((node.lineno, node.col_offset, lo.value, hi.value))
+    out.sort()
+    return [v for t in out for v in t[2:]]
+
+
 def main() -> int:
     sys.path.insert(0, "/repo")
     w = Writer()
@@ -453,6 +474,19 @@ def main() -> int:
     lits = [v for v in func_literals(m_qpy, "QCow2._decompress") if isinstance(v, int)]
     w.natlist("decompress_literals", lits)
     w.end("qcow2")
+
+    # ---------------- vmtar
+    try:
+        from dissect.hypervisor.util import vmtar as m_vmtar
+        w.ns("vmtar")
+        w.natlist("frombuf_ints", func_slices(m_vmtar, "VisorTarInfo.frombuf"))
+        lits = func_literals(m_vmtar, "VisorTarInfo.frombuf")
+        bl = [v for v in lits if isinstance(v, bytes)]
+        w.bytes("frombuf_magic", bl[0] if bl else b"")
+        w.strlist("frombuf_formats", [v for v in lits if isinstance(v, str) and len(v) <= 8 and v[:1] in "<>=!@"])
+        w.end("vmtar")
+    except Exception as e:  # noqa
+        problems.append(f"vmtar: {e}")
 
     extra = HERE / "extract_more.py"
     if extra.exists():
